@@ -320,6 +320,22 @@ func (sc *serverConn) checkFrameWithStream(fr *FrameHeader) error {
 	return nil
 }
 
+// forward hands a frame to the stream loop. It reports false, having released
+// the frame, when that loop has stopped: it stops on a connection error while
+// this goroutine may still be reading what the peer keeps sending, and a bare
+// channel send then blocked for ever once the channel was full, so ServeConn
+// never returned.
+func (sc *serverConn) forward(fr *FrameHeader) bool {
+	select {
+	case sc.reader <- fr:
+		return true
+	case <-sc.handlerStop:
+		ReleaseFrameHeader(fr)
+
+		return false
+	}
+}
+
 func (sc *serverConn) readLoop() (err error) {
 	defer sc.vs.ev(verifEvReadLoopExit)
 
@@ -397,7 +413,10 @@ func (sc *serverConn) readLoop() (err error) {
 			}
 
 			sc.vs.ev(verifEvForwarded)
-			sc.reader <- fr
+			if !sc.forward(fr) {
+				return errConnClosed
+			}
+
 			continue
 		}
 
@@ -410,7 +429,10 @@ func (sc *serverConn) readLoop() (err error) {
 				// forward to handleStreams so the INITIAL_WINDOW_SIZE delta is
 				// applied to open streams in frame order.
 				sc.vs.ev(verifEvForwarded)
-				sc.reader <- fr
+				if !sc.forward(fr) {
+					return errConnClosed
+				}
+
 				continue
 			}
 		case FrameWindowUpdate:
@@ -423,7 +445,10 @@ func (sc *serverConn) readLoop() (err error) {
 
 			// the actual window bookkeeping happens in handleStreams.
 			sc.vs.ev(verifEvForwarded)
-			sc.reader <- fr
+			if !sc.forward(fr) {
+				return errConnClosed
+			}
+
 			continue
 		case FramePing:
 			ping := fr.Body().(*Ping)
